@@ -19,6 +19,7 @@ RULE = (
     "distinct by the text."
 )
 ASSUMPTIONS = [
+    'arc radii are any number (SVG 2 grammar); a negative radius stands for its absolute value (F.6.6) - one generated radius in five is written with a minus sign',
     "number tokens follow the CSS/SVG number production (no trailing-dot spelling) and denote Python float(token)",
     "arc segments are compared for plumbing only (start, radii, rotation, flags, end reach the public Arc "
     "constructor unchanged); the F.6 arithmetic itself is C05's subject",
